@@ -178,6 +178,29 @@ def run(chk):
                             names = [p.get("n") for p in s["place"]["p"] if isinstance(p, dict) and "f" in p]
                             if names == ["state"]:
                                 writes.append(s)
+                if not writes and is_init:
+                    # the store may sit in a private helper called with `self` on this path (an extracted step): summarise it
+                    ok_helper = False
+                    for bb in path:
+                        t0 = b.blocks[bb]["term"]
+                        if t0["k"] != "call":
+                            continue
+                        c0 = mir.CallSite(b, bb, t0)
+                        tgt = c0.callee.get("resolved") or c0.callee.get("path")
+                        if not tgt or not P.has_body(tgt) or not c0.args or not mir.o_is_param(mir.o_root(b.origin(c0.args[0])), idx=1):
+                            continue
+                        hb = P.body(tgt)
+                        hw = [(hbb, st2) for hbb, j2, st2 in hb.statements(normal_only=True) if st2["k"] == "assign" and st2["place"].get("p") and st2["place"]["l"] == 1
+                              and [p.get("n") for p in st2["place"]["p"] if isinstance(p, dict) and "f" in p] == ["state"]]
+                        if len(hw) != 1 or not hb.must_pass([hw[0][0]]):
+                            continue
+                        ho = hb.origin(hw[0][1]["rv"]["op"]) if hw[0][1]["rv"]["k"] == "use" else ("unknown",)
+                        if ho[0] == "agg" and ho[1].get("variant") == "Started" and mir.o_is_call(ho[2][0], name="start"):
+                            pr = mir.o_root(hb.origin(ho[2][0][1].args[0]))
+                            if pr[0] == "param" and pr[1] - 1 < len(c0.args) and ("callsite", tk.bb) in common.roots(b.origin(c0.args[pr[1] - 1])):
+                                ok_helper = True
+                    if ok_helper:
+                        continue
                 if not writes:
                     return False, ("a path through start() takes the state (leaving Completed) and never writes one back: "
                                    "%s" % ("the Initial arm does not store Started" if is_init else
@@ -628,6 +651,12 @@ def run(chk):
             if writes:
                 n += 1
                 if k.rsplit("::", 1)[-1] not in KNOWN:
+                    # a private helper reached only from the decided methods is part of them (an extracted step), not a new way in
+                    vis = (P.fns.get(k) or {}).get("vis")
+                    callers = {x.key.split("::{closure")[0] for x in P.bodies.values() if x.crate == "emit" for c in x.calls(normal_only=True)
+                               if (c.callee.get("resolved") or c.callee.get("path")) == k}
+                    if vis != "Public" and callers and all(cn.rsplit("::", 1)[-1] in KNOWN for cn in callers):
+                        continue
                     bad.append((b, writes))
         if n < 5:
             raise mir.AnchorMissing("writers of the span guard's typestate (found %d)" % n)
